@@ -1,8 +1,188 @@
 import Pose.Wire
-/-! Driver ops for C18. -/
-namespace PP.Driver
-open PP Wire
+import Pose.Model.Cloud
+import Pose.Driver.Lie
+/-!
+# Driver ops for C18 (point-cloud filters, camera helpers)
 
-def opsC18 : List (String × Handler) := []
+Clouds travel as `D N x₀₀ … x₀,D₋₁ x₁₀ …` (row major).  The external kernels of the model are
+instantiated by the stand-ins `topkStd`, `uniqStd`, `argsortStd`; their contracts (`topkOk`, `uniqOk`,
+permutation + sortedness of `argsort`) are re-checked on **every** call — a failed contract is reported
+as `err contract-…`, which the harness turns into an infrastructure error (exit 2), never a pass.
+-/
+namespace PP.Driver
+open PP Wire Cloud
+
+/-- `.to(torch.int64)`: truncation toward zero -/
+def truncInt (a : BigF) : Int :=
+  if a.m < 0 then -(BigF.floorInt (BigF.neg a)) else BigF.floorInt a
+
+def chunk (d : Nat) (xs : List β) : List (List β) :=
+  if _h : d = 0 ∨ xs.length < d then [] else xs.take d :: chunk d (xs.drop d)
+termination_by xs.length
+decreasing_by simp [List.length_drop]; omega
+
+def parseNorm (s : String) : Except String Norm :=
+  match s with
+  | "1" => .ok .l1 | "2" => .ok .l2 | "inf" => .ok .linf
+  | _ => .error s!"bad-ord:{s}"
+
+/-- read `n` points of width `d` from the front of a number list -/
+def takeCloud (d n : Nat) (xs : List BigF) : Except String (List (List BigF) × List BigF) := do
+  let (a, rest) ← Wire.take (d * n) xs
+  if d == 0 then return (List.replicate n [], rest) else return (chunk d a, rest)
+
+def allTopkOk (largest : Bool) (rows : List (List BigF)) (kk : Nat) : Bool :=
+  rows.all fun d => topkOk largest d kk (topkStd largest d kk)
+
+def fmtMixed (a : String) (b : String) : String :=
+  if a.isEmpty then b else if b.isEmpty then a else a ++ " " ++ b
+
+def mat3 (l : List BigF) (o : Nat := 0) : Mat3 BigF := ⟨v3 l o, v3 l (o+3), v3 l (o+6)⟩
+
+def parseRed (s : String) : Except String Reduction :=
+  match s with
+  | "none" => .ok .none | "sum" => .ok .sum | "norm" => .ok .norm
+  | _ => .error s!"bad-reduction:{s}"
+
+def isPermOfRange (n : Nat) (p : List Nat) : Bool :=
+  p.length == n && p.all (· < n) && p.Nodup
+
+def sortedNat (xs : List Nat) : Bool := xs.Pairwise (· ≤ ·)
+
+def opsC18 : List (String × Handler) := [
+  -- c18.knn ord largest k D N1 N2 <ref> <nbr>   ->  N1*k values, then N1*k indices
+  ("c18.knn", fun ts => do
+      match ts with
+      | o :: lg :: kk :: d :: n1 :: n2 :: rest =>
+        let o ← parseNorm o; let lg ← nat lg; let kk ← nat kk
+        let d ← nat d; let n1 ← nat n1; let n2 ← nat n2
+        let xs ← nums rest
+        let (ref, xs) ← takeCloud d n1 xs
+        let (nbr, _) ← takeCloud d n2 xs
+        let largest := lg == 1
+        match knn topkStd o largest kk ref nbr with
+        | none => throw "k-range"
+        | some rows =>
+          if !(allTopkOk largest (ref.map fun r => nbr.map (dist o r)) kk) then throw "contract-topk"
+          return fmtMixed (fmt (rows.flatMap (·.1))) (fmtNats (rows.flatMap (·.2)))
+      | _ => throw "arity"),
+  -- c18.nbr ord pdim D N n radius <pts>   -> N mask bits, then N counts
+  ("c18.nbr", fun ts => do
+      match ts with
+      | o :: pdim :: d :: n :: nn :: radius :: rest =>
+        let o ← parseNorm o; let pdim ← nat pdim; let d ← nat d; let n ← nat n; let nn ← int nn
+        let radius ← num radius
+        let xs ← nums rest
+        let (pts, _) ← takeCloud d n xs
+        let mask := nbrMask o pdim radius nn pts
+        let cnt := pts.map (nbrCount o pdim radius pts)
+        return fmtMixed (fmtNats (mask.map fun b => if b then 1 else 0)) (fmtInts cnt)
+      | _ => throw "arity"),
+  -- c18.voxel D vdim N <vox> <pts>   -> M, M*vdim key ints, M*D centroid numbers
+  ("c18.voxel", fun ts => do
+      match ts with
+      | d :: vdim :: n :: rest =>
+        let d ← nat d; let vdim ← nat vdim; let n ← nat n
+        let xs ← nums rest
+        let (vox, xs) ← Wire.take vdim xs
+        let (pts, _) ← takeCloud d n xs
+        let keys := voxKeys truncInt vox pts
+        let u := uniqStd keys
+        if !(uniqOk keys u) then throw "contract-unique"
+        let out := voxelFilter truncInt uniqStd vox pts
+        return fmtMixed (fmtMixed (toString u.length) (fmtInts u.flatten)) (fmt out.flatten)
+      | _ => throw "arity"),
+  -- c18.voxrand D vdim N M <rnd(M)> <vox> <pts>   -> M*D numbers (member chosen with a stable argsort)
+  ("c18.voxrand", fun ts => do
+      match ts with
+      | d :: vdim :: n :: m :: rest =>
+        let d ← nat d; let vdim ← nat vdim; let n ← nat n; let m ← nat m
+        let (rnd, rest) ← Wire.take m rest
+        let rnd ← nats rnd
+        let xs ← nums rest
+        let (vox, xs) ← Wire.take vdim xs
+        let (pts, _) ← takeCloud d n xs
+        let keys := voxKeys truncInt vox pts
+        let u := uniqStd keys
+        if !(uniqOk keys u) then throw "contract-unique"
+        if u.length != m then throw s!"voxel-count:{u.length}"
+        let inv := inverseIdx u keys
+        let srt := argsortStd inv
+        if !(isPermOfRange n srt && sortedNat (srt.map fun i => inv.getD i 0)) then throw "contract-argsort"
+        let out := voxelRandom truncInt uniqStd argsortStd rnd vox pts
+        return fmt out.flatten
+      | _ => throw "arity"),
+  -- c18.knnf ord pdim D N k hasRadius radius <pts>   -> M, M*D numbers
+  ("c18.knnf", fun ts => do
+      match ts with
+      | o :: pdim :: d :: n :: kk :: hasR :: radius :: rest =>
+        let o ← parseNorm o; let pdim ← nat pdim; let d ← nat d; let n ← nat n; let kk ← nat kk
+        let hasR ← nat hasR; let radius ← num radius
+        let xs ← nums rest
+        let (pts, _) ← takeCloud d n xs
+        let r : Option BigF := if hasR == 1 then some radius else none
+        match knnFilter topkStd o pdim kk r pts with
+        | none => throw "k-range"
+        | some out =>
+          let rows := (knnRetained o pdim kk r pts).map fun p => pts.map (pdist o pdim p)
+          if !(allTopkOk false rows (kk + 1)) then throw "contract-topk"
+          return fmtMixed (toString out.length) (fmt out.flatten)
+      | _ => throw "arity"),
+  -- c18.randf D N num <perm(N)> <pts>   -> num*D numbers
+  ("c18.randf", fun ts => do
+      match ts with
+      | d :: n :: num :: rest =>
+        let d ← nat d; let n ← nat n; let num ← nat num
+        let (pm, rest) ← Wire.take n rest
+        let pm ← nats pm
+        if !(isPermOfRange n pm) then throw "contract-randperm"
+        let xs ← nums rest
+        let (pts, _) ← takeCloud d n xs
+        match randomFilter pm num pts with
+        | none => throw "num-range"
+        | some out => return fmt out.flatten
+      | _ => throw "arity"),
+  -- c18.c2h <p>
+  ("c18.c2h", numeric fun xs => .ok (cart2homo xs)),
+  -- c18.h2c tiny <p>
+  ("c18.h2c", numeric fun xs =>
+      match xs with
+      | tiny :: p => if p.isEmpty then .error "arity" else .ok (homo2cart tiny p)
+      | _ => .error "arity"),
+  -- c18.p2p hasExt tiny <K 9> [<ext 7>] <p 3>
+  ("c18.p2p", fun ts => do
+      match ts with
+      | he :: rest =>
+        let he ← nat he
+        let xs ← nums rest
+        if he == 1 then
+          if xs.length != 20 then throw "arity"
+          return fmt (point2pixel (xs.getD 0 default) (mat3 xs 1) (some (toSE3 xs 10)) (v3 xs 17))
+        else
+          if xs.length != 13 then throw "arity"
+          return fmt (point2pixel (xs.getD 0 default) (mat3 xs 1) none (v3 xs 10))
+      | _ => throw "arity"),
+  -- c18.px2pt <K 9> u v depth
+  ("c18.px2pt", numeric fun xs =>
+      if xs.length != 12 then .error "arity" else
+      match pixel2point (mat3 xs 0) (xs.getD 9 default) (xs.getD 10 default) (xs.getD 11 default) with
+      | none => .error "focal-zero"
+      | some p => .ok p.toList),
+  -- c18.reproj red hasExt tiny <K 9> [<ext 7>] <p 3> <px 2>
+  ("c18.reproj", fun ts => do
+      match ts with
+      | red :: he :: rest =>
+        let red ← parseRed red; let he ← nat he
+        let xs ← nums rest
+        if he == 1 then
+          if xs.length != 22 then throw "arity"
+          return fmt (reprojerr (xs.getD 0 default) (mat3 xs 1) (some (toSE3 xs 10)) red (v3 xs 17)
+            [xs.getD 20 default, xs.getD 21 default])
+        else
+          if xs.length != 15 then throw "arity"
+          return fmt (reprojerr (xs.getD 0 default) (mat3 xs 1) none red (v3 xs 10)
+            [xs.getD 13 default, xs.getD 14 default])
+      | _ => throw "arity")
+]
 
 end PP.Driver
